@@ -349,8 +349,7 @@ def _lock_plssdesc(ctx):
     }
     covered = {p for ps in mapping.values() for p in ps} | {'self', 'commit'}
     extra = set(fi.params()) - covered
-    ctx.check(not extra, 'LOCK', 'PLSSDesc.parse: every keyword is covered by the LOCK table',
-              detail_bad=f"new parse() keywords without a rule: {sorted(extra)}", key="LOCK|PLSSDesc.parse|table")
+    ctx.shape(not extra, 'LOCK', 'PLSSDesc.parse: every keyword is covered by the LOCK table', why=f"new parse() keywords without a rule: {sorted(extra)}")
     ctx.attempt(_lock, fi, kw, mapping, 'PLSSDesc')
     precedence(ctx, fi)
     ctx.floor('PLSSDesc.parse keywords', len(fi.params()), 10)
@@ -387,8 +386,7 @@ def _lock_tract(ctx):
                'qq_depth_min': ['qq_depth_min'], 'qq_depth_max': ['qq_depth_max'],
                'qq_depth': ['qq_depth'], 'break_halves': ['break_halves']}
     extra = set(fi.params()) - {p for ps in mapping.values() for p in ps} - {'self', 'commit'}
-    ctx.check(not extra, 'LOCK', 'Tract.parse: every keyword is covered by the LOCK table',
-              detail_bad=f"new parse() keywords without a rule: {sorted(extra)}", key="LOCK|Tract.parse|table")
+    ctx.shape(not extra, 'LOCK', 'Tract.parse: every keyword is covered by the LOCK table', why=f"new parse() keywords without a rule: {sorted(extra)}")
     # qq_depth is special: the parser receives the keyword itself; the attribute
     # fallback is folded into min/max
     ctx.attempt(_lock, fi, kw, {k: v for k, v in mapping.items() if k != 'qq_depth'}, 'Tract')
